@@ -14,7 +14,7 @@ from typing import Any, Dict, List, Optional
 from harness.common import FakeSocket, FakeTransport, VirtualTimeLoop, exc_token, tok_bytes
 from vk.core import Case, Ctx
 
-GEN_MODULES: List[str] = ["C01Ssdp", "C02Recv"]
+GEN_MODULES: List[str] = ["C01Ssdp", "C02Recv", "C02Sites"]
 MANIFEST = {
     "design_ref": "§5 C02",
     "text": ("Lean theorems over a model of the whole SSDP receive path in which every raising primitive is explicit "
@@ -24,7 +24,9 @@ MANIFEST = {
              "sends nothing, schedules nothing and leaves the tracker state unchanged), dispatched_effect (a well-formed "
              "message has its effect; device keys stay unique), recv_sequence_total / recv_sequence_nodup (any sequence "
              "of datagrams to any endpoints), model_judged_ok (the run-time judge holds of the model's own outcome), "
-             "classify_clock_irrelevant, parser totality lemmas (IndexError and KeyError unreachable), and one decided "
+             "classify_clock_irrelevant, responder_only_msearch, sites_covered (every call of a primitive that may raise on "
+             "attacker-controlled text in the receive-path functions, enumerated from the source by ast, is a row of the table of "
+             "sites the model accounts for), parser totality lemmas (IndexError and KeyError unreachable), and one decided "
              "witness datagram per repair showing that the unrepaired variant raises.  Tables (gate prefixes, default "
              "max-age, cache-control regex, bad-location needles, MX cap, jitter bounds, caught exception classes) are "
              "regenerated from the source on every run.  The model is tied to the code by differential runs through the real "
@@ -45,7 +47,10 @@ RULE = ("sequences of 1..20 datagrams to one of five entry points (advertisement
         "non-trivial = at least one datagram was dispatched (callback, send, timer or device change); distinct = distinct driver text")
 EXHAUSTIVE = {"quick": False, "thorough": False}
 ASSUMPTIONS = [
-    "MX, CACHE-CONTROL and ST values are ASCII (Python int(), \\d, \\s and str.lower accept more on non-ASCII text; such datagrams are not generated)",
+    "MX and CACHE-CONTROL values are ASCII in the compared stream: Python int(), \\d and \\s accept ~650 non-ASCII digits and 17 non-ASCII blanks; "
+    "such values (family x:unicode-*) are run against the real code on every run and judged for 'no raise' only (flag x: outside the model)",
+    "ST / USN / NT / NTS / MAN may be any text: str.lower() is modelled by ASCII lower-casing plus U+212A KELVIN SIGN -> k, the only non-ASCII "
+    "character whose lower-case form is pure ASCII (enumerated over all code points at the start of every run); device UDNs and types are ASCII",
     "a LOCATION outside the modelled URL grammar from a scoped IPv6 sender is compared only for raise/no-raise; the model then adopts the implementation's tracker state",
     "whether ssdp:alive of an already known device notifies is C04's concern: the model allows 0 or 1 callback there",
     "datetime.now is a virtual clock (ssdp.datetime patched); the responder's event loop is a stub that records call_at",
@@ -58,7 +63,7 @@ EPS = ["adv", "search", "ladv", "lsearch", "resp"]
 ROOT_UDN = "uuid:00000000-0000-0000-0000-0000000000a1"
 EMB_UDN = "uuid:00000000-0000-0000-0000-0000000000a2"
 ROOT_TYPE = "urn:schemas-upnp-org:device:MediaServer:2"
-EMB_TYPE = "urn:schemas-upnp-org:device:Embedded:1"
+EMB_TYPE = "urn:schemas-upnp-org:device:Speaker:1"   # has a `k`: U+212A KELVIN SIGN in ST lower-cases onto it
 SVC_TYPES = ["urn:schemas-upnp-org:service:ContentDirectory:3", "urn:schemas-upnp-org:service:AVTransport:1"]
 
 
@@ -252,7 +257,8 @@ def run_recipe(ctx: Ctx, recipe: Dict[str, Any], cid: str) -> Case:
             timers = len(env.stub.timers) - t0
             devs = lst(f"{ts(k)}={us(v.valid_to)}" for k, v in tracker.devices.items())
             nx = tracker.next_valid_to
-            lines.append(f"dg {ep} {tb(data)} {tok_addr(src)} {tok_addr(local) if local else 'N'} {env.clock}")
+            outside = " x" if (tag or "").startswith("x:") or not in_model(data) else ""
+            lines.append(f"dg {ep} {tb(data)} {tok_addr(src)} {tok_addr(local) if local else 'N'} {env.clock}{outside}")
             lines.append(f"eff raised={raised} cb={cbn} sends={sends} timers={timers} devs={devs} "
                          f"next={'N' if nx is None else us(nx)} before={lst(ts(k) for k in before)} "
                          f"after={lst(ts(k) for k in sorted(tracker.devices))}")
@@ -328,6 +334,10 @@ def msearch(st: str, mx: Optional[str], man: str = DISCOVER, extra=()) -> bytes:
     return pkt("M-SEARCH * HTTP/1.1", hs)
 
 
+KELVIN = "\u212a"
+STS_UNICODE = [EMB_TYPE.replace("k", KELVIN), EMB_TYPE.replace("k", KELVIN).upper(), "urn:schemas-upnp-org:device:Spea\u212aer:0",
+               "ssdp:a\u0130l", "ssdp:\u00c5ll", "upnp:rootdev\u0130ce", "upnp:rootdev\u0131ce", "UPNP:ROOTDEVICE\u212a", "ssdp:all\u00a0",
+               ROOT_UDN.replace("a1", "\uff41\uff11"), "\u212a", "uu\u0130d:x"]
 STS = ["ssdp:all", "upnp:rootdevice", ROOT_UDN, EMB_UDN.upper(), ROOT_TYPE, ROOT_TYPE[:-1] + "1", ROOT_TYPE[:-1] + "3", EMB_TYPE,
        SVC_TYPES[0], SVC_TYPES[0][:-1] + "0", SVC_TYPES[1].upper(), "urn:foreign:device:X:1", "uuid:unknown", "", "ssdp:ALL", ROOT_TYPE[:-2]]
 
@@ -345,14 +355,14 @@ def valid_datagram(rng) -> bytes:
         return notify("ssdp:byebye", udn, typ, None if rng.random() < 0.7 else loc, None)
     if c < 8:
         return response(udn, typ, loc, cc)
-    return msearch(rng.choice(STS), rng.choice(["1", "2", "5", None, "0"]))
+    return msearch(rng.choice(STS + STS_UNICODE), rng.choice(["1", "2", "5", None, "0"]))
 
 
-ASCII_ONLY = re.compile(rb"^(mx|cache-control|st)\s*:(.*)$", re.I | re.M)
+ASCII_ONLY = re.compile(rb"^(mx|cache-control)\s*:(.*)$", re.I | re.M)
 
 
 def in_model(data: bytes) -> bool:
-    """MX / CACHE-CONTROL / ST values must be ASCII (see ASSUMPTIONS)"""
+    """MX / CACHE-CONTROL values must be ASCII (see ASSUMPTIONS); everything else may be any text"""
     for m in ASCII_ONLY.finditer(data.replace(b"\r\n", b"\n")):
         if any(b > 127 for b in m.group(2)):
             return False
@@ -440,6 +450,33 @@ def targeted(rng) -> List[tuple]:
     out.append(("udp-max", response(udn, typ, loc, None, extra=[[f"H{i}", "w" * 100] for i in range(600)]), None))
     out.append(("udp-max", msearch("ssdp:all", "1", extra=[["USER-AGENT", "a" * 8000], ["X", "b" * 8190]]), None))
     out.append(("udp-max", b"NOTIFY * HTTP/1.1\r\n" + bytes((i * 37 + 11) % 256 for i in range(65400)), None))
+    # the responder answers M-SEARCH only: other start lines with MAN "ssdp:discover" and a matching ST must send nothing
+    for sl in ("NOTIFY * HTTP/1.1", "HTTP/1.1 200 OK", "M-SEARCH * HTTP/1.1 x", "M-SEARCH * HTTP/1.10", "M-SEARCH * HTTP/1.1\t"):
+        for st in ("ssdp:all", "upnp:rootdevice", ROOT_UDN, ROOT_TYPE):
+            for mx in ("0", "2", None):
+                hs = [["HOST", "239.255.255.250:1900"], ["MAN", DISCOVER], ["ST", st]] + ([["MX", mx]] if mx is not None else [])
+                out.append(("resp-startline", pkt(sl, hs), None))
+    for man in ("ssdp:discover", '"ssdp:discover" ', '"SSDP:DISCOVER"', "", '"ssdp:discover"x'):
+        out.append(("resp-man", msearch("ssdp:all", "0", man=man), None))
+    # non-ASCII text where the code lower-cases or compares: ST (str.lower, U+212A -> k), USN prefix, NT / NTS / MAN
+    for st in STS_UNICODE:
+        out.append(("unicode-st", msearch(st, rng.choice(["0", "2"])), None))
+    for usn in ("uu\u0130d:dev-1::x", "UU\u0131D:dev-1", "\u212auid:dev-1", "uuid:\u212a::upnp:rootdevice", "uuid:dev-\u0130", "\uff55uid:dev-1"):
+        hs = [["NT", typ], ["NTS", "ssdp:alive"], ["USN", usn], ["LOCATION", loc]]
+        out.append(("unicode-usn", pkt("NOTIFY * HTTP/1.1", hs), None))
+        out.append(("unicode-usn", pkt("HTTP/1.1 200 OK", [["ST", typ], ["USN", usn], ["LOCATION", loc]]), None))
+    for nts in ("ssdp:al\u0130ve", "ssdp:alive\u00a0", "SSDP:ALIVE", "ssdp:\u212a", "ssdp:bye\u0062ye\u0301"):
+        out.append(("unicode-nts", pkt("NOTIFY * HTTP/1.1", [["NT", "upnp:rootdevice\u212a"], ["NTS", nts], ["USN", "uuid:dev-1"], ["LOCATION", loc]]), None))
+    for man in ("\u201cssdp:discover\u201d", '"ssdp:d\u0130scover"', '"ssdp:discover"\u00a0', '"SSDP:DISCOVER\u212a"'):
+        out.append(("unicode-man", msearch("ssdp:all", "0", man=man), None))
+        out.append(("unicode-man", pkt("NOTIFY * HTTP/1.1", [["MAN", man], ["NT", typ], ["NTS", "ssdp:alive"], ["USN", "uuid:dev-1"], ["LOCATION", loc]]), None))
+    # excluded points (ASSUMPTIONS): non-ASCII digits / blanks in MX and CACHE-CONTROL are run against the real code,
+    # judged for "no raise" only (flag x: outside the model)
+    for mx in ("\u0661", "\u0661\u0662", "\uff15", "\u00a02\u2003", "\u0967_\u0967", "-\u0663", "\u00b2", "\u2164"):
+        out.append(("x:unicode-mx", msearch("ssdp:all", mx), None))
+    for cc in ("max-age=\u0661\u0662", "max-age\u00a0=\u20035", "max-age=\uff11" + "\u0669" * 30, "max-age=" + "\u0660" * 4301, "max-age=\u00b9", "MAX-AGE=\u0e51"):
+        out.append(("x:unicode-max-age", notify("ssdp:alive", udn, typ, loc, cc), None))
+        out.append(("x:unicode-max-age", response(udn, typ, loc, cc), None))
     # metadata spoofing: `_udn` without a USN reaches `_see_device`
     for kind in ("alive", "search", "byebye"):
         hs = [["_udn", "uuid:spoof"], ["LOCATION", loc], ["NT", typ], ["ST", typ], ["NTS", "ssdp:" + ("byebye" if kind == "byebye" else "alive")]]
@@ -450,6 +487,35 @@ def targeted(rng) -> List[tuple]:
             out.append(("spoof-udn", pkt("NOTIFY * HTTP/1.1", hs), None))
         out.append(("spoof-udn", pkt("NOTIFY * HTTP/1.1", hs + [["USN", "urn:not-a-uuid"]]), None))
     return out
+
+
+HEADER_NAMES = ["HOST", "CACHE-CONTROL", "LOCATION", "NT", "NTS", "SERVER", "USN", "ST", "MAN", "MX", "EXT", "DATE", "OPT", "01-NLS",
+                "BOOTID.UPNP.ORG", "CONFIGID.UPNP.ORG", "NEXTBOOTID.UPNP.ORG", "SEARCHPORT.UPNP.ORG", "SECURELOCATION.UPNP.ORG",
+                "CONTENT-LENGTH", "USER-AGENT", "TCPPORT.UPNP.ORG", "CPFN.UPNP.ORG", "CPUUID.UPNP.ORG"]
+HOSTILE = ["", "abc", "-1", "9" * 25, "9" * 4301, "1.5", "0x10", "1e9", "http://[", "[::", "::", "%", "a:b:c", "\x0b", "1 2", "١٢", "é", "\t7"]
+
+
+def hostile(rng) -> bytes:
+    """a valid message in which ONE known header (present or added) carries a hostile value: any int()/float()/URL
+    parsing a future change applies to a header value on the receive path meets text it cannot parse"""
+    name, val = rng.choice(HEADER_NAMES), rng.choice(HOSTILE)
+    udn, typ, loc = rng.choice(UDNS), rng.choice(TYPES), rng.choice(LOCS)
+    c = rng.randrange(4)
+    if c == 0:
+        d = notify(rng.choice(["ssdp:alive", "ssdp:update", "ssdp:byebye"]), udn, typ, loc, rng.choice(MAX_AGES + [None]))
+    elif c == 1:
+        d = response(udn, typ, loc, rng.choice(MAX_AGES + [None]))
+    else:
+        d = msearch(rng.choice(STS[:9]), rng.choice(["1", None, "0"]))
+    ls = d.split(b"\r\n")
+    line = f"{name}:{val}".encode("utf-8", "surrogateescape")
+    for i in range(1, len(ls)):
+        if ls[i].upper().startswith(name.encode() + b":"):
+            ls[i] = line
+            break
+    else:
+        ls.insert(rng.randrange(1, max(2, len(ls) - 2)), line)
+    return b"\r\n".join(ls)
 
 
 def seq_prefix(rng, n: int) -> List[list]:
@@ -497,7 +563,7 @@ def gen_part(ctx: Ctx, kind: str, n: int, prefix: str) -> List[Case]:
         fam = targeted(rng)
         for _ in range(n):
             for tag, data, src in fam:
-                if not in_model(data):
+                if not in_model(data) and not tag.startswith("x:"):
                     continue
                 for ep in EPS:
                     s = src or rng.choice(SRCS)
@@ -512,6 +578,46 @@ def gen_part(ctx: Ctx, kind: str, n: int, prefix: str) -> List[Case]:
                 d = valid_datagram(rng)
                 ops.append([rng.choice(EPS), d.hex(), list(rng.choice(SRCS)), list(rng.choice(LOCALS) or []) or None, rng.choice(GAPS), "valid"])
             add(ops, target=rng.choice(["", "", "192.168.1.7", "fe80::1%3"]))
+    elif kind == "sandwich":
+        # a dropped datagram between valid ones: tracker non-empty (same and other UDNs), responder timers pending
+        pool = [(t, d) for t, d, _s in targeted(rng) if in_model(d)]
+        for _ in range(n):
+            udn_a, udn_b = rng.sample(UDNS, 2)
+            typ, loc = rng.choice(TYPES), rng.choice(LOCS[:4])
+            src = list(rng.choice(SRCS))
+            mk = lambda ep, d, gap, tag: [ep, d.hex(), src if rng.random() < 0.7 else list(rng.choice(SRCS)), None, gap, tag]
+            ops = [mk("ladv", notify("ssdp:alive", udn_a, typ, loc, rng.choice(["max-age=1800", "max-age=2", None])), 1000, "valid"),
+                   mk("resp", msearch("ssdp:all", "3"), 1000, "valid"),
+                   mk("lsearch", response(udn_b, typ, loc, "max-age=1800"), 1000, "valid")]
+            for _ in range(rng.randrange(1, 4)):
+                c = rng.randrange(4)
+                if c == 0:
+                    tag, d = rng.choice(pool)
+                elif c == 1:   # claims the known UDN but is not a well-formed message
+                    tag, d = "bad-same-udn", notify(rng.choice(["ssdp:alive", "ssdp:byebye", "ssdp:update"]), udn_a, typ,
+                                                    rng.choice(INVALID_LOCS), None, extra=[["NT", ""]] if rng.random() < 0.3 else ())
+                    if rng.random() < 0.5:
+                        d = d.replace(b"USN:uuid:", b"USN:uid:").replace(b"USN:UUID:", b"USN:UID:")
+                elif c == 2:   # another UDN, malformed
+                    tag, d = "bad-other-udn", mutate(rng, response("uuid:dev-9", typ, rng.choice(INVALID_LOCS), None))
+                else:
+                    tag, d = "hostile", hostile(rng)
+                if not in_model(d):
+                    continue
+                ops.append(mk(rng.choice(EPS), d, rng.choice(GAPS[:8]), tag))
+                if rng.random() < 0.5:
+                    ops.append(mk("ladv", notify("ssdp:alive", rng.choice([udn_a, udn_b]), typ, loc, None), rng.choice(GAPS[:6]), "valid"))
+            ops.append(mk("ladv", notify("ssdp:byebye", udn_a, typ, None, None), 1000, "valid"))
+            add(ops, target="")
+    elif kind == "hostile":
+        for _ in range(n):
+            ops = seq_prefix(rng, rng.choice([0, 1, 3]))
+            d = hostile(rng)
+            if not in_model(d):
+                continue
+            for ep in rng.sample(EPS, 3):
+                ops.append([ep, d.hex(), list(rng.choice(SRCS)), list(rng.choice(LOCALS) or []) or None, rng.choice(GAPS), "hostile"])
+            add(ops, target=rng.choice(["", "", "192.168.1.7"]))
     elif kind == "mutated":
         # mutated stream inside valid traffic
         for _ in range(n):
@@ -541,18 +647,28 @@ def _worker(args) -> List[Case]:
     return gen_part(ctx, kind, n, prefix)
 
 
+def lower_to_ascii() -> List[int]:
+    """every non-ASCII code point whose str.lower() is pure ASCII (the model's `lowerPy` knows exactly these)"""
+    import sys
+
+    return [c for c in range(128, sys.maxunicode + 1) if chr(c).lower().isascii()]
+
+
 def generate(ctx: Ctx) -> List[Case]:
+    got = lower_to_ascii()
+    if got != [0x212A]:
+        raise RuntimeError(f"Python's str.lower maps other non-ASCII characters onto ASCII than the model assumes: {[hex(c) for c in got]}")
     cases: List[Case] = []
     for i, rec in enumerate(CORPUS):
         cases.append(run_recipe(ctx, rec, f"corpus{i}"))
     if not ctx.thorough:
-        for kind, n in (("targeted", 1), ("valid", 1200), ("mutated", 1800)):
+        for kind, n in (("targeted", 1), ("sandwich", 400), ("hostile", 600), ("valid", 900), ("mutated", 1300)):
             cases += gen_part(ctx, kind, n, kind[0])
         return cases
     import multiprocessing as mp
 
     jobs = []
-    for kind, n, chunks in (("targeted", 1, 8), ("valid", 2200, 16), ("mutated", 2000, 24)):
+    for kind, n, chunks in (("targeted", 1, 8), ("sandwich", 1200, 8), ("hostile", 1500, 8), ("valid", 1800, 16), ("mutated", 1600, 24)):
         for c in range(chunks):
             jobs.append(("thorough", ctx.rng.randrange(1 << 30), kind, n, f"{kind[0]}{c}-"))
     with mp.Pool(min(16, mp.cpu_count())) as pool:
